@@ -15,7 +15,7 @@ sizes (index arithmetic over unbounded sizes and SHA-256: solver/prover territor
 import re
 
 from facts import short_name
-from kinds import k7_panics, k1_callers, k1_constructors, comparisons, result_blocks
+from kinds import rel, must_be_equal, k7_panics, k1_callers, k1_constructors, comparisons, result_blocks
 import c17
 
 CRATES = ["astria_merkle.lib", "astria_core.lib", "astria_core_crypto.lib",
@@ -61,6 +61,8 @@ def run(prog, rep):
     seen, n, used = k7_panics(prog, rep, "M1", entries, triage)
     rep.floor("M1", len(seen), 12, "functions reachable from merkle verification entry points")
     rep.note(f"M1: {len(seen)} functions reachable, {n} panic constructs inspected")
+
+    m4(prog, rep)
 
     # ---- M2 domain separation
     b = prog.main_body(M + "init_leaf_hasher")
@@ -160,3 +162,113 @@ def run(prog, rep):
               "UncheckedProof::try_into_proof accepts an audit path whose length differs from "
               "the leaf's depth; verifying such a proof walks past the root and panics in "
               "last_zero_bit (i + 1 overflow)", M + "audit::UncheckedProof::try_into_proof")
+
+
+# ----------------------------------------------------------------------------------------------
+# M4 tree geometry.  The in-order layout (leaves at even indices, a perfect tree with the right
+# part cut off and re-attached) is computed by a dozen tiny index helpers; a wrong constant or a
+# "simplified" sub-expression in any of them changes roots and proofs for particular tree sizes
+# only (e.g. 11 leaves) and no test notices.  The helpers are straight-line, so their return
+# values have closed forms; the forms below were read off today's tree, checked against the
+# doc comments / RFC 6962 layout, and are compared modulo the identities in formula.py (operand
+# order, grouping, checked/wrapping spelling, shifts vs. multiplication, parameter names).  A
+# different algorithm for the same function is outside those identities and would be reported.
+GEOMETRY = {
+    "leaf_index_to_tree_index": ["(2 * $1)"],
+    "last_set_bit": ["($1 - ($1 & ($1 - 1)))"],
+    "last_zero_bit": ["last_set_bit(($1 + 1))"],
+    "perfect_parent": ["(!(2 * last_zero_bit($1)) & ($1 | last_zero_bit($1)))"],
+    "perfect_left_child": ["(!(last_zero_bit($1) / 2) & $1)"],
+    "perfect_right_child": ["(!(last_zero_bit($1) / 2) & ($1 | last_zero_bit($1)))"],
+    "perfect_root": ["($1 / 2)"],
+    "complete_root": ["perfect_root((next_power_of_two(($1 + 1)) - 1))"],
+    "complete_left_child": ["perfect_left_child($1)"],
+    "complete_right_child": ["($1 + complete_root((- $1 + $2 - 1)) + 1)", "perfect_right_child($1)"],
+    "is_branch": ["(($1 & 1) == 1)"],
+    "is_tree_index_in_tree": ["($1 < $2)"],
+    "is_perfect": ["(($1 + 1) == next_power_of_two($1))", "1"],
+}
+
+
+def m4(prog, rep):
+    import formula
+    n = 0
+    for fn, want in sorted(GEOMETRY.items()):
+        if M + fn not in prog.by_owner:
+            rep.anchor_missing("M4", M + fn)
+            continue
+        b = prog.main_body(M + fn)
+        got = formula.return_formulas(b)
+        n += 1
+        rep.check(got == sorted(want), "M4", f"geometry:{fn}",
+                  f"index helper `{fn}` returns {got}; the in-order tree layout needs {sorted(want)} "
+                  "(a different value moves nodes for some tree sizes: roots and proofs change)",
+                  b.describe(), detail="; ".join(got))
+    rep.floor("M4", n, 13, "index helpers with a closed form")
+    # complete_right_child: the perfect-tree child is used only when it lies inside the tree
+    b = prog.main_body(M + "complete_right_child")
+    lt = rel(b, "Lt", r"^perfect_right_child\(i\)$|^right_child$", r"^n$")
+    uses = [i for i, j, p, rv, line in b.assigns()
+            if p == "0" and rv[0] == "use" and "perfect_right_child(" in b.root(rv[1])
+            and "complete_root" not in b.root(rv[1])]
+    rep.check(bool(lt) and bool(uses) and all(b.must_pass_edges(set(lt[0].true_edges), u) for u in uses),
+              "M4", "right-child:perfect-only-if-in-tree",
+              "complete_right_child returns the perfect-tree child although it is outside the tree",
+              b.describe())
+    cr = [c for c in b.calls if c.is_(M + "complete_root")]
+    rep.check(not cr or (bool(lt) and all(b.must_pass_edges(set(lt[0].false_edges), c.bb) for c in cr)),
+              "M4", "right-child:reattached-only-if-outside",
+              "the re-attached subtree root is used although the perfect child is in the tree",
+              b.describe())
+    # complete_parent: climb perfect parents until inside the tree
+    b = prog.main_body(M + "complete_parent")
+    pp = [c for c in b.calls if c.is_(M + "perfect_parent")]
+    lt = rel(b, "Lt", r"^i$", r"^n$")
+    rets = b.return_blocks()
+    ok = len(pp) == 1 and b.root(pp[0].args[0]) == "i" and bool(lt) and \
+        all(b.must_pass_edges(set(lt[0].true_edges), r) for r in rets) and \
+        all(b.must_pass_block(pp[0].bb, r) for r in rets) and \
+        pp[0].bb in b.reachable(lt[0].false_edges[0][1] if lt and lt[0].false_edges else -1)
+    rep.check(ok, "M4", "complete_parent:climb-until-in-tree",
+              "complete_parent is not `loop { i = perfect_parent(i); if i < n { break i } }` "
+              "(at least one step, stop at the first ancestor inside the tree)", b.describe())
+    user = [c for c in b.calls if not c.expn]
+    rep.check(len(user) == 1, "M4", "complete_parent:no-other-calls",
+              f"complete_parent calls {[short_name(c.callee) for c in user]}", b.describe())
+    # complete_parent_and_sibling: sibling is the other child of the parent
+    b = prog.main_body(M + "complete_parent_and_sibling")
+    lt = rel(b, "Lt", r"^i$", r"^complete_parent\(i,n\)$")
+    rc = [c for c in b.calls if c.is_(M + "complete_right_child")]
+    lc = [c for c in b.calls if c.is_(M + "complete_left_child")]
+    ok = bool(lt) and len(rc) == 1 and len(lc) == 1 and \
+        b.must_pass_edges(set(lt[0].true_edges), rc[0].bb) and \
+        b.must_pass_edges(set(lt[0].false_edges), lc[0].bb) and \
+        [b.root(a) for a in rc[0].args] == ["complete_parent(i,n)", "n"] and \
+        [b.root(a) for a in lc[0].args] == ["complete_parent(i,n)"]
+    rep.check(ok, "M4", "sibling=other-child-of-parent",
+              "the sibling of a node left of its parent must be the parent's right child and "
+              "vice versa, both taken from complete_parent(i, n)", b.describe())
+    got = formula.return_formulas(b)
+    rep.check(got == ["(complete_parent($1, $2), s)"], "M4", "parent-and-sibling:returns",
+              f"returns {got}", b.describe())
+    # audit_path_len: number of complete_parent steps from the leaf's node to the root
+    b = prog.main_body(M + "audit_path_len")
+    ok, how = must_be_equal(b, r"^i$", r"^complete_root\(tree_size\)$",
+                            [r for r in result_some(b)][0] if result_some(b) else -1)
+    cp = [c for c in b.calls if c.is_(M + "complete_parent")]
+    inc = [c for c in b.calls if short_name(c.callee) in ("saturating_add", "checked_add", "wrapping_add")
+           and b.root(c.args[0]) == "len" and b.root(c.args[1]) == "const(1)"]
+    l2t = [c for c in b.calls if c.is_(M + "leaf_index_to_tree_index")]
+    rep.check(ok and len(cp) == 1 and [b.root(a) for a in cp[0].args] == ["i", "tree_size"]
+              and bool(inc) and len(l2t) == 1 and b.root(l2t[0].args[0]) == "leaf_index",
+              "M4", "audit_path_len=steps-to-root",
+              "audit_path_len does not count complete_parent steps from the leaf's node until "
+              f"the root is reached ({how})", b.describe())
+
+
+def result_some(b):
+    out = []
+    for i, j, p, rv, line in b.assigns():
+        if p == "0" and rv[0] == "agg" and rv[3] == "Some":
+            out.append(i)
+    return out
